@@ -123,7 +123,7 @@ def messages(full):
             for cl in ("nodata-first", "scd-then-match"):
                 for dl in ("encrypted", "plain+encrypted"):
                     n += 1
-                    if not full and (n % 2 == 0) and i == "match" and s == "match":
+                    if not full and (n % 3 != 0) and not (i != "match" and s == "absent" and cl == "nodata-first"):
                         continue
                     out.append(dict(irt=i, scd=s, confs=cl, delivery=dl, arrive=G.BROWSER[n % 3]))
     out.append(dict(irt="unknown", scd="absent", confs="single", delivery="plain", arrive="soap"))
@@ -133,7 +133,7 @@ def messages(full):
 
 
 def few_messages():
-    return [m for m in messages(False) if m["confs"] == "single"] + [
+    return [m for m in messages(False) if m["confs"] == "single" and (m["scd"] in ("match", "absent") or m["irt"] == "match")][::2] + [
         dict(irt="unknown", scd="absent", confs="nodata-first", delivery="encrypted", arrive="redirect"),
         dict(irt="match", scd="other-outstanding", confs="scd-then-match", delivery="plain+encrypted", arrive="post")]
 
